@@ -1067,6 +1067,10 @@ class PathEngine:
             return None
         if it.id in env:
             t = env[it.id]
+            # a column of an unrolled table row that is itself a tuple of constants (`for fragments, klass in TABLE:
+            # for fragment in fragments:`): the inner decision list
+            if isinstance(t, tuple) and t and t[0] == "tuple" and 0 < len(t[1]) <= 8 and all(isinstance(x, tuple) and x and x[0] in ("const", "enum") for x in t[1]):
+                return list(t[1])
         else:
             # a module-level table (tuple of rows bound once): the same decision list, hoisted out of the function
             try:
